@@ -259,7 +259,9 @@ func genUI(r *rand.Rand, n int, emit func(Op)) {
 			case 2:
 				keys = append(keys, ":open "+pick(r, starts)+"\r")
 			case 3:
-				keys = append(keys, pick(r, []string{":feed home\r", ":bogus x\r", ":open\r", ":\r", ": \r", ":open  \r", ":open ./file\r", ":x\x7f\x7f\x7f", "\x1b", "\x7f"}))
+				keys = append(keys, pick(r, []string{":feed home\r", ":bogus x\r", ":open\r", ":\r", ": \r", ":open  \r", ":open ./file\r", ":x\x7f\x7f\x7f", "\x1b", "\x7f",
+					/* multi-byte input and backspace: the buffer is edited by runes */
+					":é\x7f", ":é\x7f\x7f", ":é\x7f\x7fj", ":aé漢\x7f\x7f\x7f\x7fk", ":😀\x7f\x7f\x7f\x7f\x7f", ":é\x7f\x7f\x7f\x7f\x7f "}))
 			case 4:
 				keys = append(keys, string([]byte{byte(r.Intn(256))}))
 			case 5:
